@@ -721,6 +721,55 @@ func callArgIs(repo, file, fn, callee string, idx int, want, lean, doc string) s
 	return fmt.Sprintf("/-- generated from %s, func %s: %s -/\ndef %s : Bool := %v\n\n", file, fn, doc, lean, ok == 1)
 }
 
+// topLevelCall: `callee` is called exactly once in fn, in a statement of the function body itself (not
+// inside a branch of another statement): it runs on every path that reaches it
+func topLevelCall(repo, file, fn, callee, lean, doc string) string {
+	f, err := parser.ParseFile(fset, filepath.Join(repo, file), nil, 0)
+	if err != nil {
+		die("%s: %v", file, err)
+	}
+	fd := findFunc(f, fn)
+	if fd == nil {
+		die("%s: function %s not found", file, fn)
+	}
+	has := func(n ast.Node) int {
+		k := 0
+		ast.Inspect(n, func(m ast.Node) bool {
+			if c, ok := m.(*ast.CallExpr); ok && strings.Contains(src(c), callee) && strings.HasPrefix(src(c), callee[:strings.Index(callee, "(")]) {
+				k++
+			}
+			return true
+		})
+		return k
+	}
+	if total := has(fd.Body); total != 1 {
+		die("%s: %s: expected one call of %s, found %d", file, fn, callee, total)
+	}
+	top := false
+	for _, st := range fd.Body.List {
+		if has(st) == 0 {
+			continue
+		}
+		// the call may sit in the header of an `if` (its Init or Cond), not in its branches
+		if is, ok := st.(*ast.IfStmt); ok {
+			n := 0
+			if is.Init != nil {
+				n += has(is.Init)
+			}
+			n += has(is.Cond)
+			top = n == 1
+		} else {
+			_, isBlockLike := st.(*ast.BlockStmt)
+			top = !isBlockLike
+			switch st.(type) {
+			case *ast.ForStmt, *ast.RangeStmt, *ast.SwitchStmt, *ast.TypeSwitchStmt, *ast.SelectStmt:
+				top = false
+			}
+		}
+	}
+	return fmt.Sprintf("/-- generated from %s, func %s: %s -/\ndef %s : Bool := %v\n\n", file, fn, doc, lean, top)
+}
+
 // errCheckedAfter: the statement that follows the assignment calling `callee` (wherever it is nested in
 // fn) is `if err != nil { … return … }`
 func errCheckedAfter(repo, file, fn, callee, lean, doc string) string {
@@ -910,6 +959,10 @@ func main() {
 		{"GenConnect", func() string {
 			return effectOrder(repo, "pubsub/oneonone/channel.go", "Connect", "connectOrder", [][2]string{
 				{"lock", "c.muSubs.Lock()"}, {"subscribe", "PubSub().Subscribe("}, {"unlock", "c.muSubs.Unlock()"}})
+		}},
+		{"GenBus", func() string {
+			return topLevelCall(repo, bs, "InitBaseStore", "b.SetBus(options.EventBus)", "setBusUnconditional",
+				"the bus the store emits on is set on the embedded legacy emitter on every path (also when it is the default bus)")
 		}},
 		{"GenSubClose", func() string {
 			return effectOrder(repo, "events/events.go", "handleSubscriber", "subscriberCloseOrder", [][2]string{
